@@ -453,7 +453,7 @@ def judge(variant, solve, res, mx_eff=None):
 def run_driver(binpath, lines, cwd, trace=False, timeout=600):
     try:
         p = subprocess.run([binpath] + (["trace"] if trace else []), input="\n".join(lines) + "\n",
-                           capture_output=True, text=True, cwd=cwd, timeout=timeout)
+                           capture_output=True, text=True, errors="replace", cwd=cwd, timeout=timeout)
     except subprocess.TimeoutExpired as e:
         # the driver's own watchdog did not fire (e.g. stuck in a signal-unsafe state): same verdict
         so = e.stdout.decode() if isinstance(e.stdout, bytes) else (e.stdout or "")
@@ -480,15 +480,22 @@ def execute(bins, runs, workdir, trace=False):
             seen = {}
             hang_at = None
             traces = {}
+            lost = {}
             for ln in so.splitlines():
                 t = ln.split()
                 if not t:
                     continue
                 if t[0] == "res":
-                    r = parse_res(v, t)
+                    try:
+                        r = parse_res(v, t)
+                    except (ValueError, IndexError):
+                        continue  # output damaged by the code under test: the run stays incomplete
                     seen.setdefault(r["run"], []).append(r)
                 elif t[0] == "trace":
                     traces.setdefault(int(t[1]), []).append(ln.split(" ", 3)[3] if len(t) > 3 else "")
+                elif t[0] == "lost":
+                    # lost <run whose end destroyed it> <its last solve> <run> <solve whose record is gone>
+                    lost.setdefault(int(t[1]), []).append((int(t[2]), int(t[3]), int(t[4])))
                 elif t[0] == "hang":
                     hang_at = int(t[1])
                 elif t[0] in ("badscript", "initfail", "resetfail"):
@@ -501,12 +508,25 @@ def execute(bins, runs, workdir, trace=False):
                     out[i] = {"results": rs, "hang": False, "traces": traces.get(i, []),
                               "clauses": [judge(v, s, r, m) for s, r, m in
                                           zip(runs[i]["solves"], rs, effective_mxsteps(runs[i]))]}
+                    for k, vr, vk in lost.get(i, []):
+                        # the record of an earlier failing Solve (run vr, solve vk of this driver process) is
+                        # no longer in the file after this run's object was finalised
+                        kk = min(k, len(out[i]["clauses"]) - 1)
+                        if "initial-state-record-lost" not in out[i]["clauses"][kk]:
+                            out[i]["clauses"][kk].append("initial-state-record-lost")
                     done_upto = n
                 else:
                     break
             nxt = (done_upto + 1) if done_upto is not None else 0
             if nxt >= len(pending):
-                if rc != 0:
+                if rc < 0 or rc in (134, 139) or rc == 3:
+                    # killed by a signal (or stuck) while shutting the objects down, after every result
+                    # was printed: the generated code damaged the process (e.g. wrote out of bounds)
+                    last = pending[-1]
+                    cl = "hang" if rc == 3 else "crash"
+                    if cl not in out[last]["clauses"][-1]:
+                        out[last]["clauses"][-1].append(cl)
+                elif rc != 0:
                     raise K.HarnessError(f"driver {v} exit {rc} after all results: {se[-2000:]}")
                 break
             # the driver stopped inside run pending[nxt]
